@@ -145,7 +145,7 @@ static void gen_ple(opcase_t *c, rng_t *r, int maxdim) {
     long mb = cut / w;
     m = (int)mb + rng_int(r, -2, 40);
     if (m < 1) m = 1;
-    if (m > 2 * md) m = gen_dim(r, md);
+    if (m > 8 * md) m = gen_dim(r, md);
   } else {
     m = gen_dim(r, md);
     n = gen_dim(r, md);
@@ -590,8 +590,8 @@ const op_t OPS_ELIM[] = {
     OP1("_mzd_pluq", "ple", R_RW, 0, 0, OPF_NONUNIQUE, P__PLUQ, gen_ple, run_ple, check_ple, canon_ple),
     OP1("_mzd_ple_naive", "ple", R_RW, 0, 0, OPF_NONUNIQUE, P_PLE_NAIVE, gen_ple, run_ple, check_ple, canon_ple),
     OP1("_mzd_pluq_naive", "ple", R_RW, 0, 0, OPF_NONUNIQUE, P_PLUQ_NAIVE, gen_ple, run_ple, check_ple, canon_ple),
-    OP1("_mzd_ple_russian", "ple", R_RW, 0, 0, OPF_NONUNIQUE, P_PLE_RUSSIAN, gen_ple, run_ple, check_ple, canon_ple),
-    OP1("_mzd_pluq_russian", "ple", R_RW, 0, 0, OPF_NONUNIQUE, P_PLUQ_RUSSIAN, gen_ple, run_ple, check_ple, canon_ple),
+    OP1("_mzd_ple_russian", "ple", R_RW, 0, 0, OPF_NONUNIQUE | OPF_NOWIN, P_PLE_RUSSIAN, gen_ple, run_ple, check_ple, canon_ple),
+    OP1("_mzd_pluq_russian", "ple", R_RW, 0, 0, OPF_NONUNIQUE | OPF_NOWIN, P_PLUQ_RUSSIAN, gen_ple, run_ple, check_ple, canon_ple),
     OP1("mzd_trsm_upper_left", "trsm", R_RO, R_RW, 0, 0, T_UL, gen_trsm, run_trsm, check_trsm, NULL),
     OP1("mzd_trsm_lower_left", "trsm", R_RO, R_RW, 0, 0, T_LL, gen_trsm, run_trsm, check_trsm, NULL),
     OP1("mzd_trsm_upper_right", "trsm", R_RO, R_RW, 0, 0, T_UR, gen_trsm, run_trsm, check_trsm, NULL),
